@@ -43,13 +43,20 @@ class ProxySocket:
         frames = [bytes(f) for f in frames]
 
         def go():
-            if delay:
-                time.sleep(delay)
-            with self.lock:
-                for _ in range(n):
-                    self.real.send_multipart(frames)
+            try:
+                if delay:
+                    time.sleep(delay)
+                with self.lock:
+                    for _ in range(n):
+                        self.real.send_multipart(frames)
+            finally:
+                if delay:
+                    with self.lock:
+                        self.stats["held_pending"] = self.stats.get("held_pending", 0) - 1
         if delay:
             self.stats["held"] = self.stats.get("held", 0) + 1
+            with self.lock:
+                self.stats["held_pending"] = self.stats.get("held_pending", 0) + 1
             threading.Thread(target=go, daemon=True).start()
         else:
             go()
@@ -116,19 +123,23 @@ def run_history(rng, base_port: int, plan_class: str, n_c: int, n_e: int, grace_
             return real(host, m)
         sender.send = send
 
-    polls: dict = {}
+    polls: dict = {"ex": 0, "dl": 0, "br": 0}
+    by_address = {caddr: ("e2c", "br"), eaddr: ("c2e", "ex"), daddr: ("c2e", "dl")}
+    real_recv_messages = comms.Listener.recv_messages
+
+    def recv_messages(self, timeout_ms=1000):
+        # class-level: also what Bridge.__init__ consumes during the handshake is recorded (a heart-beat registration may arrive there)
+        ms = real_recv_messages(self, timeout_ms)
+        d = by_address.get(self.address)
+        if d is not None:
+            with lock:
+                delivered[d[0]].extend(ms)
+                polls[d[1]] += 1
+        return ms
+    comms.Listener.recv_messages = recv_messages
 
     def wrap_listener(lst, d, name):
-        real = lst.recv_messages
-        polls[name] = 0
-
-        def recv(timeout_ms=1000, real=real):
-            ms = real(timeout_ms)
-            with lock:
-                delivered[d].extend(ms)
-                polls[name] += 1
-            return ms
-        lst.recv_messages = recv
+        pass
 
     ex = object.__new__(executor_mod.Executor)
     threads = []
@@ -164,7 +175,6 @@ def run_history(rng, base_port: int, plan_class: str, n_c: int, n_e: int, grace_
         bridge = bridge_mod.Bridge(caddr, 1)
         wrap_sender(bridge.sender, "c2e")
         wrap_listener(bridge.mlistener, "e2c", "br")
-        delivered["e2c"].append(ex.registration)
         # proxies on the data path of both senders
         for host, (sock, addr) in list(bridge.sender.hosts.items()):
             bridge.sender.hosts[host] = (ProxySocket(sock, plan, "c2e", stats), addr)
@@ -229,24 +239,32 @@ def run_history(rng, base_port: int, plan_class: str, n_c: int, n_e: int, grace_
             elif who == "e" and not ex.terminating:
                 inj.send(ser_message(DatasetPublished(origin=w0, ds=DatasetId(f"e{i}", "0"), transmit_idx=None)))
             time.sleep(rng.choice([0, 0.001, 0.01]))
-        # quiescence in real time
-        deadline = time.time() + 8
+        # quiescence in real time: nothing in flight at either sender, no frame still held by a proxy thread, every local
+        # injection already taken up by the executor -- and all of that still true after every listener has completed two
+        # further polls (the record of a delivery is appended just after the ack has left)
+        n_inj = sum(1 for who, _i in todo if who == "e")
+        deadline = time.time() + 12
         quiescent = False
-        while time.time() < deadline:
+
+        def at_rest():
             c_done = raised["c2e"] is not None or not bridge.sender.inflight
             e_done = ex.terminating or not ex.sender.inflight
-            if c_done and e_done:
-                # let late duplicates arrive and let both receiving loops finish the iteration that produced the last ack
-                # (the ack leaves inside recv_messages, the harness's record of the delivery is appended just after it)
-                time.sleep(0.3)
+            with lock:
+                taken = sum(1 for m in sent["e2c"] if type(m).__name__ == "DatasetPublished")
+            return c_done and e_done and stats.get("held_pending", 0) == 0 and (ex.terminating or taken >= n_inj)
+        while time.time() < deadline:
+            if at_rest():
+                time.sleep(0.3)   # let late duplicates arrive
                 p0, ts = dict(polls), time.time()
+                n0 = (len(sent["c2e"]), len(sent["e2c"]))
 
                 def settled():
                     return all(polls[k] >= p0[k] + 2 for k in polls if not (k == "br" and raised["c2e"] is not None) and not (k == "ex" and ex.terminating))
                 while time.time() - ts < 5 and not settled():
                     time.sleep(0.01)
-                quiescent = settled()
-                break
+                if settled() and at_rest() and n0 == (len(sent["c2e"]), len(sent["e2c"])):
+                    quiescent = True
+                    break
             time.sleep(0.02)
         active[0] = False
         if ex.terminating:
@@ -261,6 +279,7 @@ def run_history(rng, base_port: int, plan_class: str, n_c: int, n_e: int, grace_
     finally:
         ex.terminating = True
         comms.callback = real_cb
+        comms.Listener.recv_messages = real_recv_messages
         bridge_mod.resend_grace_ms, executor_mod.resend_grace_ms, _ = saved
         for th in threads:
             th.join(1.5)
